@@ -3,8 +3,8 @@
     recovery ([recover]) and the two hash functions ([H] = sha256 of the proof bytes, [digest] =
     EncodePackedAndHash) are universally quantified oracles. *)
 From Coq Require Import String.
-From BX Require Import Base.Prelude Model.Fees Model.ExecFrame Model.ProofCheck Model.Sites
-  Proofs.ExecFrameProofs Proofs.ProofCheckProofs.
+From BX Require Import Base.Prelude Model.Fees Model.ExecFrame Model.ProofCheck Model.Sites Model.Packed
+  Proofs.ExecFrameProofs Proofs.ProofCheckProofs Proofs.PackedProofs.
 Local Open Scope N_scope.
 
 (** an IBTP transaction whose proof check says anything but OK (absent, hash mismatch, unknown
@@ -40,6 +40,50 @@ Theorem C03_multisig_threshold :
     (Z.of_nat (List.length l) > Z.quot (Z.of_nat (List.length vs) - 1) 3)%Z.
 Proof. exact multisig_threshold. Qed.
 Print Assumptions C03_multisig_threshold.
+
+(** what the validators sign, made concrete.  [utils.EncodePackedAndHash] packs
+    From ++ To ++ be8(Index) ++ be8(Type) ++ Payload.Hash ++ be8(TxStatus) and hashes it
+    ([Model/Packed.v], bytes as numbers, no oracle).  With fixed-width integers the packing is
+    injective on well-formed field tuples whose From++To and hash have equal lengths ... *)
+Theorem C03_encode_inj : forall f g, pf_ok f -> pf_ok g ->
+  length (pf_fromto f) = length (pf_fromto g) -> length (pf_hash f) = length (pf_hash g) ->
+  encode f = encode g -> f = g.
+Proof. exact encode_inj. Qed.
+Print Assumptions C03_encode_inj.
+
+(** ... so, for any collision-free hash, a signature over the digest of (IBTP i, status s) is a
+    signature over no other (IBTP, status) ... *)
+Theorem C03_packed_digest_binds : forall (hash : list N -> N) (fields_of : N -> pfields),
+  (forall a b, hash a = hash b -> a = b) ->
+  forall i s i' s', pf_ok (with_status (fields_of i) s) -> pf_ok (with_status (fields_of i') s') ->
+  length (pf_fromto (fields_of i)) = length (pf_fromto (fields_of i')) ->
+  length (pf_hash (fields_of i)) = length (pf_hash (fields_of i')) ->
+  packed_digest hash fields_of i s = packed_digest hash fields_of i' s' ->
+  with_status (fields_of i) s = with_status (fields_of i') s'.
+Proof. exact packed_digest_binds. Qed.
+Print Assumptions C03_packed_digest_binds.
+
+(** ... and the multi-signature theorem holds with exactly this digest in place of the abstract one *)
+Theorem C03_multisig_threshold_packed :
+  forall (H : N -> N) (hash : list N -> N) (fields_of : N -> pfields)
+         (rule_validate : N -> N -> N -> N -> N -> option bool) (recover : N -> N -> option N) st ib p dec,
+  fst (origin ib) <> ps_bxh st ->
+  verify_proof H (packed_digest hash fields_of) rule_validate recover st ib (PdBytes p dec) = VOk ->
+  exists app vs bp l,
+    ps_chains st (fst (origin ib)) = Some app /\ a_validators app = Some vs /\ dec = Some bp /\
+    NoDup l /\ incl l vs /\
+    (forall a, In a l -> exists s, In s (bp_sigs bp) /\
+                         recover s (hash (encode (with_status (fields_of (ib_id ib)) (bp_status bp)))) = Some a) /\
+    (Z.of_nat (List.length l) > Z.quot (Z.of_nat (List.length vs) - 1) 3)%Z.
+Proof. exact multisig_threshold_packed. Qed.
+Print Assumptions C03_multisig_threshold_packed.
+
+(** minimal-length integers instead of 8-byte words (not what the code does): expected refutation -
+    request 257 of type INTERCHAIN and a RECEIPT (type 1) for request 1 share one pre-image *)
+Theorem C03_encode_min_refuted :
+  encode_min f_req257 = encode_min f_rcpt1 /\ f_req257 <> f_rcpt1 /\ encode f_req257 <> encode f_rcpt1.
+Proof. exact encode_min_refuted. Qed.
+Print Assumptions C03_encode_min_refuted.
 
 (** the counting loop itself, by induction over the signature list with the shrinking set *)
 Theorem C03_ms_loop_sound :
@@ -110,6 +154,45 @@ Theorem C03_memo_view_refuted :
   master_accepts (st_rule 2) ib_local (PdBytes 901 None) = false.
 Proof. exact memo_view_refuted. Qed.
 Print Assumptions C03_memo_view_refuted.
+
+(** ... and whatever the delivery timing.  The executor has two stages; blocks handed over by
+    consensus can be queued behind a block that is still executing (batch delivery, catch-up).
+    With the pool asked in the EXECUTION stage (the code as it stands) every interleaving of
+    deliveries and executions answers exactly like lock-step execution of the same blocks: each
+    block is verified against the state committed by the block executed before it *)
+Theorem C03_pipeline_is_lockstep :
+  forall (H : N -> N) (digest : N -> N -> N) (rule_validate : N -> N -> N -> N -> N -> option bool)
+         (recover : N -> N -> option N),
+  forall c, d_verify_at_enqueue c = false ->
+  forall evs n,
+  q_run H digest rule_validate recover c n evs
+  = lockstep H digest rule_validate recover (q_committed n) (executed (map fst (q_queue n)) evs).
+Proof. exact pipeline_is_lockstep. Qed.
+Print Assumptions C03_pipeline_is_lockstep.
+
+Theorem C03_master_rule_current_pipeline :
+  forall (H : N -> N) (digest : N -> N -> N) (rule_validate : N -> N -> N -> N -> N -> option bool)
+         (recover : N -> N -> option N),
+  forall c n evs st vs,
+  d_verify_at_enqueue c = false ->
+  In (st, vs) (q_run H digest rule_validate recover c n evs) ->
+  exists b, vs = answers_of H digest rule_validate recover st b /\
+    forall k ib p dec, nth_error (qb_checks b) k = Some (ib, PdBytes p dec) -> nth_error vs k = Some VOk ->
+      fst (origin ib) = ps_bxh st ->
+      exists app r, ps_chains st (snd (origin ib)) = Some app /\
+                    master_rule st (snd (origin ib)) = Some r /\ r_available r = true /\
+                    rule_validate (r_addr r) (snd (origin ib)) p (ib_id ib) (a_trust app) = Some true.
+Proof. exact master_rule_current_pipeline. Qed.
+Print Assumptions C03_master_rule_current_pipeline.
+
+(** asking the pool when a block ENTERS the pipeline: expected refutation - block 1 binds the
+    stricter rule, block 2 (delivered before block 1 is executed) gets its junk proof accepted *)
+Theorem C03_verify_at_enqueue_refuted :
+  map snd (q_run c_H c_digest c_rule c_recover {| d_verify_at_enqueue := true |} q0 qhist) = [[]; [VOk]] /\
+  map snd (lockstep c_H c_digest c_rule c_recover (st_rule 1) [qb1; qb2]) = [[]; [VErr 5]] /\
+  master_accepts (st_rule 2) ib_local (PdBytes 901 None) = false.
+Proof. exact verify_at_enqueue_refuted. Qed.
+Print Assumptions C03_verify_at_enqueue_refuted.
 
 (** if every available rule carries the Master flag, the consulted rule is the master rule; the
     judge checks "accepted => the rule with the Master flag accepts" on implementation traces with
